@@ -56,7 +56,7 @@ PROCS = ['validate', 'validate_schema', 'deduplicate', 'printer', 'set_type', 's
          'filter_rows', 'unpivot', 'concatenate', 'delete_resource', 'update_resource',
          'update_schema', 'set_primary_key', 'parallelize', 'add_computed_field', 'add_field',
          'find_replace', 'delete_fields', 'select_fields', 'rename_fields', 'load_tuple',
-         'load_package']
+         'load_package', 'checkpoint']
 
 
 SEQ_PROCS = ('delete_resource', 'concatenate', 'filter_rows', 'deduplicate', 'sort_rows', 'update_resource', 'printer',
@@ -248,7 +248,7 @@ def run_case(case):
     rm.ResourceMatcher.match = match
     rm.ResourceMatcher.__init__ = init
     try:
-        if proc in ('load_tuple', 'load_package'):
+        if proc in ('load_tuple', 'load_package', 'checkpoint'):
             return run_load(case, tables, want_sel, sel_err, counters, cov, form, arm, contract_bad)
         log = []
         pre, _ = build(proc, None, log)
@@ -375,7 +375,11 @@ def run_load(case, tables, want_sel, sel_err, counters, cov, form, arm, contract
     desc = {'name': 'pkg', 'resources': [
         {'name': n, 'path': n + '.csv', 'profile': 'tabular-data-resource',
          'schema': {'fields': copy.deepcopy(FIELDS)}} for n in names]}
-    if proc == 'load_tuple':
+    if proc == 'checkpoint':
+        # documented: 'Limit the checkpointing only to specific resources, same semantics as load'
+        step = d.Flow(*[lab.source(n, FIELDS, tables[n]) for n in names],
+                      d.checkpoint('cp', resources=copy.deepcopy(s)))
+    elif proc == 'load_tuple':
         step = d.load((desc, [iter(copy.deepcopy(tables[n])) for n in names]),
                       resources=copy.deepcopy(s), strip=False)
     else:
@@ -413,6 +417,21 @@ def run_load(case, tables, want_sel, sel_err, counters, cov, form, arm, contract
             diffs = lab.rows_diff(tables[n], rows)
             if diffs:
                 v('resource_content', '%s(resources=%r): resource %r: %s' % (proc, s, n, diffs))
+    if proc == 'checkpoint' and not viol:
+        # what was stored is what the selector names, and the run that resumes from it sees the same
+        stored = []
+        try:
+            with open(os.path.join('.checkpoints', 'cp', 'stream.ndjson')) as f:
+                stored = [r['name'] for r in json.loads(f.readline())['resources']]
+        except Exception as e:
+            stored = 'unreadable: %s' % e
+        if stored != want_sel:
+            v('checkpoint_stored_resources', 'checkpoint(resources=%r) on %r stored %r expected %r' % (s, names, stored, want_sel))
+        again = lab.run([d.Flow(*[lab.source(n, FIELDS, [dict(r, c='changed') for r in tables[n]]) for n in names],
+                                d.checkpoint('cp', resources=copy.deepcopy(s)))], validate=True)
+        if not again.ok or again.names != got.names or any(lab.rows_diff(a, b, 1) for a, b in zip(got.results, again.results)):
+            v('checkpoint_resumed', 'checkpoint(resources=%r) on %r: the resumed run gives %s' % (
+                s, names, again.names if again.ok else again.errstr()))
     if contract_bad and not viol:
         v('matcher_contract', 'ResourceMatcher(%r).match disagreed with reference on %r'
           % (s, contract_bad[:4]))
